@@ -1522,9 +1522,10 @@ def _defer_to_next_in_mro(cls: type, name: str, default: Callable[..., Any]) -> 
     of the instance.
     """
 
-    def deferring(self: Any, *args: Any, **kwargs: Any) -> Any:
+    def deferring(*args: Any, **kwargs: Any) -> Any:
         """Call the method which follows the class holding the copy in the method resolution order."""
-        return getattr(super(cls, self), name)(*args, **kwargs)  # type: ignore
+        # (The instance is not taken as a named parameter: any name might be a keyword of the call.)
+        return getattr(super(cls, args[0]), name)(*args[1:], **kwargs)  # type: ignore
 
     functools.update_wrapper(wrapper=deferring, wrapped=default)
 
@@ -1534,8 +1535,10 @@ def _defer_to_next_in_mro(cls: type, name: str, default: Callable[..., Any]) -> 
 def _defer_new_to_next_in_mro(cls: type) -> Any:
     """Stand in for ``object.__new__`` of the ``cls`` the way ``_defer_to_next_in_mro`` does for the special methods."""
 
-    def deferring(klass: Any, *args: Any, **kwargs: Any) -> Any:
+    def deferring(*args: Any, **kwargs: Any) -> Any:
         """Call the ``__new__`` which follows the class holding the copy in the method resolution order."""
+        # (The class is not taken as a named parameter: any name might be a keyword of the constructor.)
+        klass = args[0]
         next_new = super(cls, klass).__new__  # type: ignore
 
         if next_new is object.__new__ and klass.__init__ is not object.__init__:
@@ -1543,7 +1546,7 @@ def _defer_new_to_next_in_mro(cls: type) -> Any:
             # accepts them only as long as __new__ is not overridden, which the copy does.
             return next_new(klass)
 
-        return next_new(klass, *args, **kwargs)
+        return next_new(*args, **kwargs)
 
     functools.update_wrapper(wrapper=deferring, wrapped=object.__new__)
 
